@@ -294,7 +294,15 @@ func compileCall(e b6.Expression, c *compilation) error {
 	args[ArgsNumArgs] = int16(len(call.Args))
 	switch f := call.Function.AnyExpression.(type) {
 	case b6.SymbolExpression:
-		if ff, ok := c.Globals.Function(f); ok {
+		if a, ok := c.Args.Lookup(f); ok {
+			// The function is a lambda argument, which shadows any global
+			// function with the same name. Without arguments, that's just
+			// the argument's value, eg the body of {x -> x}.
+			c.Append(Instruction{Op: OpLoad, Args: [2]int16{int16(a)}, Expression: call.Function})
+			if len(call.Args) > 0 {
+				c.Append(Instruction{Op: OpCallStack, Args: [2]int16{int16(len(call.Args)), 0}, Expression: e})
+			}
+		} else if ff, ok := c.Globals.Function(f); ok {
 			callable := goCall{f: ff, expression: call.Function}
 			c.Append(Instruction{Op: OpCallValue, Callable: callable, Args: args, Expression: e})
 		} else {
